@@ -6,12 +6,16 @@
 // that must print the same lines.
 //
 // Case lines
-//   1 start end shape op        shape 0 TS<Int>, 1 TSS<Int>, 2 TSD<Int,TS<Int>>
+//   1 start end shape op [prod] prod 1: the targets are the three fields of ONE producer node's bundle output
+//                               (selected through getattr_), 0/absent: outputs of separate source nodes
+//                               shape 0 TS<Int>, 1 TSS<Int>, 2 TSD<Int,TS<Int>>
 //                               op    0 if_then_else, 1 if_cmp,
 //                                     3 if_then_else with the consumers inside a nested graph (nested_<>),
 //                                     5 as 3, but the REF itself crosses the boundary and is dereferenced inside,
 //                                     6 chained: if_then_else(c2, if_then_else(c1, A, B), C); c2 is source k=4,
 //                                     7 chained: if_cmp(cmp2, if_then_else(c1, A, B), C, C),
+//                                     8 list[key]: ONE producer with a TSL<S,3> output, getitem_ with a ticking index
+//                                       (source 0: <=0 -> 0, 1 -> 1, >=2 -> 2); targets are always siblings,
 //                                     4 if_then_else inside a nested graph, its result exported (no line 22)
 //   2 k t payload...            script of source k at time t:
 //                               k=0 selector (payload: one integer), k=1..3 targets, k=4 second (outer) selector, k=7 poke
@@ -286,14 +290,71 @@ namespace
         }
     };
 
+    // ONE producer node whose output is a bundle of three fields of schema S: the selectable targets are then
+    // SUB-OUTPUTS OF THE SAME NODE (prod = 1); field k is driven by script k (k = 1..n)
     template <typename S>
-    void wire_case(Wiring &w, std::int64_t op)
+    using Bundle3 = UnNamedTSB<Field<"a", S>, Field<"b", S>, Field<"c", S>>;
+    template <typename S>
+    struct ProdB
     {
-        auto poke = wire<Src<TS<Int>>>(w, Int{7});
-        auto a    = wire<Src<S>>(w, Int{1});
-        auto b    = wire<Src<S>>(w, Int{2});
-        wire<Direct<S>>(w, a, Int{1});
-        wire<Direct<S>>(w, b, Int{2});
+        static constexpr auto name              = "hgv_prod_bundle";
+        static constexpr bool schedule_on_start = true;
+        static void           eval(NodeScheduler sched, DateTime now, Scalar<"n", Int> n, Out<Bundle3<S>> out)
+        {
+            std::int64_t next = 0;
+            for (std::int64_t k = 1; k <= n.value(); ++k)
+            {
+                const Script &s  = g.script[k];
+                auto          it = s.find(us(now));
+                if (it != s.end())
+                {
+                    if (k == 1) { apply_payload(out.template field<"a">(), it->second); }
+                    else if (k == 2) { apply_payload(out.template field<"b">(), it->second); }
+                    else { apply_payload(out.template field<"c">(), it->second); }
+                }
+                auto nx = s.upper_bound(us(now));
+                if (nx != s.end() && (next == 0 || nx->first < next)) { next = nx->first; }
+            }
+            if (next != 0) { sched.schedule(dt(next)); }
+        }
+    };
+
+    // ONE producer node whose output is a fixed list of three elements of schema S (op 8): the selection is
+    // list[key] with a TICKING key (stdlib getitem_ -> getitem_tsl_by_index), the reference moves between
+    // elements of the same output
+    template <typename S>
+    struct ProdL
+    {
+        static constexpr auto name              = "hgv_prod_list";
+        static constexpr bool schedule_on_start = true;
+        static void           eval(NodeScheduler sched, DateTime now, Out<TSL<S, 3>> out)
+        {
+            std::int64_t next = 0;
+            for (std::int64_t k = 1; k <= 3; ++k)
+            {
+                const Script &s  = g.script[k];
+                auto          it = s.find(us(now));
+                if (it != s.end()) { apply_payload(out[static_cast<std::size_t>(k - 1)], it->second); }
+                auto nx = s.upper_bound(us(now));
+                if (nx != s.end() && (next == 0 || nx->first < next)) { next = nx->first; }
+            }
+            if (next != 0) { sched.schedule(dt(next)); }
+        }
+    };
+    // the ticking index: <= 0 -> 0, 1 -> 1, >= 2 -> 2
+    struct SrcIndex
+    {
+        static constexpr auto name              = "hgv_src_index";
+        static constexpr bool schedule_on_start = true;
+        static void           eval(NodeScheduler sched, DateTime now, Scalar<"k", Int> k, Out<TS<Int>> out)
+        {
+            drive(k.value(), now, sched, [&](const Payload &p) { out.set(p.at(0) <= 0 ? Int{0} : p.at(0) == 1 ? Int{1} : Int{2}); });
+        }
+    };
+
+    template <typename S, typename PA, typename PB, typename PC, typename PP>
+    void wire_ops(Wiring &w, std::int64_t op, PA a, PB b, PC c, PP poke)
+    {
         auto below = [&](auto sel) {
             wire<Cons0<S>>(w, sel);
             wire<Cons1<S>>(w, sel, poke);
@@ -324,8 +385,6 @@ namespace
             // CHAINED selection: the selected branch of the outer selector is itself a reference output
             //   inner = if_then_else(c1, a, b);  outer = if_then_else(c2, inner, c)   (op 6)
             //                                    outer = if_cmp(cmp2, inner, c, c)     (op 7)
-            auto c     = wire<Src<S>>(w, Int{3});
-            wire<Direct<S>>(w, c, Int{3});
             auto c1    = wire<SrcBool>(w, Int{0});
             auto inner = wire<stdlib::if_then_else>(w, c1, a, b);
             if (op == 6)
@@ -351,8 +410,6 @@ namespace
         }
         else if (op == 1)
         {
-            auto c = wire<Src<S>>(w, Int{3});
-            wire<Direct<S>>(w, c, Int{3});
             auto cmp = wire<SrcCmp>(w, Int{0});
             below(wire<stdlib::if_cmp>(w, cmp, a, b, c));
         }
@@ -363,14 +420,62 @@ namespace
         }
     }
 
+    template <typename S>
+    void wire_case(Wiring &w, std::int64_t op, std::int64_t prod)
+    {
+        auto       poke   = wire<Src<TS<Int>>>(w, Int{7});
+        const bool need_c = op == 1 || op == 6 || op == 7;
+        if (op == 8)
+        {
+            auto list = wire<ProdL<S>>(w);
+            wire<Direct<S>>(w, tsl_element(list, 0), Int{1});
+            wire<Direct<S>>(w, tsl_element(list, 1), Int{2});
+            wire<Direct<S>>(w, tsl_element(list, 2), Int{3});
+            auto key = wire<SrcIndex>(w, Int{0});
+            auto sel = wire<stdlib::getitem_>(w, list, key);
+            wire<Cons0<S>>(w, sel);
+            wire<Cons1<S>>(w, sel, poke);
+            wire<Cons2<S>>(w, sel, poke);
+            wire<Cons3<S>>(w, sel);
+            wire<RefWatch<S>>(w, sel);
+            return;
+        }
+        if (prod == 1)
+        {
+            // the targets are three fields of ONE node's bundle output, selected individually
+            auto bundle = wire<ProdB<S>>(w, Int{need_c ? 3 : 2});
+            auto a      = wire<stdlib::getattr_>(w, bundle, Str{"a"}).template as<S>();
+            auto b      = wire<stdlib::getattr_>(w, bundle, Str{"b"}).template as<S>();
+            auto c      = wire<stdlib::getattr_>(w, bundle, Str{"c"}).template as<S>();
+            wire<Direct<S>>(w, a, Int{1});
+            wire<Direct<S>>(w, b, Int{2});
+            if (need_c) { wire<Direct<S>>(w, c, Int{3}); }
+            wire_ops<S>(w, op, a, b, c, poke);
+        }
+        else
+        {
+            auto a = wire<Src<S>>(w, Int{1});
+            auto b = wire<Src<S>>(w, Int{2});
+            wire<Direct<S>>(w, a, Int{1});
+            wire<Direct<S>>(w, b, Int{2});
+            if (need_c)
+            {
+                auto c = wire<Src<S>>(w, Int{3});
+                wire<Direct<S>>(w, c, Int{3});
+                wire_ops<S>(w, op, a, b, c, poke);
+            }
+            else { wire_ops<S>(w, op, a, b, a, poke); }
+        }
+    }
+
     void run_case(const hgv::Case &c, hgv::Out &out)
     {
         g     = Ctx{};
         g.out = &out;
-        std::int64_t start = 1, end = 10, shape = 0, op = 0;
+        std::int64_t start = 1, end = 10, shape = 0, op = 0, prod = 0;
         for (const Line &l : c)
         {
-            if (l[0] == 1 && l.size() >= 3) { start = l[1]; end = l[2]; shape = l.size() > 3 ? l[3] : 0; op = l.size() > 4 ? l[4] : 0; }
+            if (l[0] == 1 && l.size() >= 3) { start = l[1]; end = l[2]; shape = l.size() > 3 ? l[3] : 0; op = l.size() > 4 ? l[4] : 0; prod = l.size() > 5 ? l[5] : 0; }
             else if (l[0] == 2 && l.size() >= 4 && l[1] >= 0 && l[1] < 8)
             {
                 g.script[l[1]][l[2]] = Payload(l.begin() + 3, l.end());
@@ -381,9 +486,9 @@ namespace
             Wiring w;
             switch (shape)
             {
-                case 1: wire_case<TSS<Int>>(w, op); break;
-                case 2: wire_case<TSD<Int, TS<Int>>>(w, op); break;
-                default: wire_case<TS<Int>>(w, op); break;
+                case 1: wire_case<TSS<Int>>(w, op, prod); break;
+                case 2: wire_case<TSD<Int, TS<Int>>>(w, op, prod); break;
+                default: wire_case<TS<Int>>(w, op, prod); break;
             }
             GraphBuilder         gb = std::move(w).finish();
             GraphExecutorBuilder eb;
